@@ -126,14 +126,22 @@ def rule_tables(facts, rep):
     rep.check(not bad and rows >= 17, "tables", c["path"], "8-effect-rows",
               f"italic/blink/reversed/hidden/strikethrough/underline and Bold/Faint intensity each set exactly their effect ({rows} cases evaluated) {bad[:2]}", loc(c))
     for fn, var in (("is_bold", "Bold"), ("is_faint", "Faint")):
-        f = facts.body("anstyle_roff", R + "styled_str::" + fn)
-        m2 = ac.single_expr(f["hir"])
-        ok = False
-        if m2.get("k") == "match" and len(m2["arms"]) == 2:
-            p0 = m2["arms"][0]["pat"]
-            inner = p0["pats"][0] if p0.get("k") == "pts" else {}
-            ok = hir.pat_path(inner) == "cansi::Intensity::" + var and hir.lit_val(m2["arms"][0]["body"]) is True and hir.lit_val(m2["arms"][1]["body"]) is False
-        rep.check(ok, "tables", f["path"], f"Some({var})", "", loc(f))
+        # the two intensity predicates, where they exist as functions, by evaluation on the four possible arguments; the effect rows
+        # above decide the same mapping end to end, so a version without these helpers loses nothing
+        fs = [x for x in facts.bodies("anstyle_roff") if x["path"] == R + "styled_str::" + fn]
+        if not fs:
+            rep.ok("tables", R + "styled_str::" + fn, f"Some({var})", "no such helper in this tree: the intensity mapping is decided in 8-effect-rows", "")
+            continue
+        f = fs[0]
+        got = {}
+        for arg, name in ((("none",), "None"), (("some", ("enum", INT + "Normal")), "Normal"), (("some", ("enum", INT + "Bold")), "Bold"),
+                          (("some", ("enum", INT + "Faint")), "Faint")):
+            try:
+                got[name] = abseval.Evaluator(facts, "anstyle_roff", {}).call_fn("anstyle_roff", f["path"], [arg])
+            except Unrecognised as ex:
+                got[name] = ("not-evaluable", str(ex)[:60])
+        ok = all(got[n_] == ("bool", n_ == var) for n_ in got)
+        rep.check(ok, "tables", f["path"], f"Some({var})", f"{got}", loc(f))
     # StyledStr::from
     s = facts.body("anstyle_roff", "<anstyle_roff::styled_str::StyledStr<'text> as core::convert::From<cansi::v3::CategorisedSlice<'text>>>::from")
     rep.fn(s["path"])
